@@ -18,19 +18,20 @@ ID = "C17"
 LEVEL = "fault_enumeration"
 RULE = (
     "for each of the 13 EsClient operations: every word of node-level outcomes (success, connection timeout/error, HTTP "
-    "429/502/503/504/400/401/403/404/500, other transport error, and for bulk operations per-item 429/503/400 failures) up to the "
+    "429/502/503/504/400/401/403/404/500, a connection error that carries its cause (connection aborted by the peer), other transport error, and for bulk operations per-item 429/503/400 failures, also with a number of rejected documents that varies between attempts) up to the "
     "length bound, extended only while the operation keeps retrying, plus all words a^i b^j c with i+j in 9..11 over the retryable "
     "classes (the retry budget boundary), plus two-call histories on one EsClient; run through the real EsClient and Rally's real "
     "sync client over a scripted node with time.sleep on the virtual clock. non-trivial = word contains a fault; distinct = (op, word)"
 )
 ASSUMPTIONS = [
-    "the Elasticsearch client's own transport retries are switched off (max_retries=0) so that one attempt of guarded() is one request",
+    "the Elasticsearch client's own transport retries are switched off (max_retries=0) so that one attempt of guarded() is one request; a separate "
+    "layer runs every operation on a client with one transport retry against 2k dropped connections (the error then carries the earlier errors and their cause)",
     "reference: statement of C17 (retryable = connection timeout/error, 429/502/503/504 also per bulk item; ten retries; 2^k backoff)",
 ]
 
-RETRYABLE = {"conn-timeout", "conn-error", "429", "502", "503", "504", "items-429", "items-503"}
-BASE = ["ok", "conn-timeout", "conn-error", "429", "502", "503", "504", "400", "401", "403", "404", "500", "507", "transport-error"]
-BULK_EXTRA = ["items-429", "items-503", "items-400", "items-429+400", "items-11x429+400"]
+RETRYABLE = {"conn-timeout", "conn-error", "conn-aborted", "429", "502", "503", "504", "items-429", "items-503", "items-3x429"}
+BASE = ["ok", "conn-timeout", "conn-error", "conn-aborted", "429", "502", "503", "504", "400", "401", "403", "404", "500", "507", "transport-error"]
+BULK_EXTRA = ["items-429", "items-503", "items-3x429", "items-400", "items-429+400", "items-11x429+400"]
 
 # 14 documents per bulk, so that more than ten items of one response can fail
 DOCS = [{"_source": {"n": 1}}, {"_source": {"n": 2}}, {"_source": {"n": 3, "s": "é"}}] + [{"_source": {"n": k}} for k in range(4, 15)]
@@ -58,9 +59,16 @@ BULK_OPS = {"bulk_index", "index", "index_with_id"}
 _STATE = {}
 
 
-def _client():
-    if "client" in _STATE:
-        return _STATE["client"], _STATE["node_cls"]
+def _client(max_retries=0):
+    if ("client", max_retries) in _STATE:
+        return _STATE[("client", max_retries)], _STATE["node_cls"]
+    if "node_cls" in _STATE:
+        from esrally.client.synchronous import RallySyncElasticsearch
+
+        c = RallySyncElasticsearch(hosts=[{"host": "metrics-host", "port": 9243, "scheme": "http"}], node_class=_STATE["node_cls"], max_retries=max_retries,
+                                   retry_on_timeout=False, distribution_version="8.6.1", distribution_flavor="default")
+        _STATE[("client", max_retries)] = c
+        return c, _STATE["node_cls"]
     import elastic_transport
     from elastic_transport import ApiResponseMeta, HttpHeaders
     from elastic_transport._node._base import NodeApiResponse
@@ -97,6 +105,12 @@ def _client():
                 raise elastic_transport.ConnectionTimeout(f"timed out {i}")
             if kind == "conn-error":
                 raise elastic_transport.ConnectionError(f"refused {i}")
+            if kind == "conn-aborted":
+                # the peer dropped the connection (restarting node, cut keep-alive connection): the error carries its cause, as the HTTP node builds it
+                import urllib3
+
+                cause = urllib3.exceptions.ProtocolError("Connection aborted.", ConnectionResetError(104, "Connection reset by peer"))
+                raise elastic_transport.ConnectionError(f"Connection aborted {i}", errors=(cause,))
             if kind == "transport-error":
                 raise elastic_transport.SerializationError(f"cannot-serialize-{i}")
             if kind.startswith("items-") or kind == "ok":
@@ -106,6 +120,10 @@ def _client():
                     items = [{"index": {"status": 201, "_id": str(k)}} for k in range(n)]
                     if kind == "items-429":
                         items[0] = {"index": {"status": 429, "error": {"type": "es_rejected_execution_exception"}}}
+                    elif kind == "items-3x429":
+                        # several documents rejected (the number of rejected documents varies from attempt to attempt)
+                        for k in range(min(3, n)):
+                            items[k] = {"index": {"status": 429, "error": {"type": "es_rejected_execution_exception"}}}
                     elif kind == "items-503":
                         items[-1] = {"index": {"status": 503, "error": {"type": "unavailable_shards_exception"}}}
                     elif kind == "items-400":
@@ -139,7 +157,7 @@ def _client():
         distribution_version="8.6.1",
         distribution_flavor="default",
     )
-    _STATE["client"] = c
+    _STATE[("client", 0)] = c
     _STATE["node_cls"] = ScriptedNode
     return c, ScriptedNode
 
@@ -174,11 +192,13 @@ CAUSE_TOKEN = {
 EXHAUST_TOKEN = {
     "conn-timeout": "timeout",
     "conn-error": "connect",
+    "conn-aborted": "connect",
     "429": "boom_429",
     "502": "boom_502",
     "503": "boom_503",
     "504": "boom_504",
     "items-429": "es_rejected_execution_exception",
+    "items-3x429": "es_rejected_execution_exception",
     "items-503": "unavailable_shards_exception",
 }
 
@@ -312,6 +332,64 @@ def check_one(op, word, res, before=()):
     return False
 
 
+def check_transport_retries(op, k, tail, res):
+    """The client's own transport retries are ON (one retry per call, Rally's metrics client has three): the peer drops 2k consecutive
+    connections, so k attempts of guarded() fail with a connection error that carries the earlier errors and their cause, then `tail`."""
+    import random
+
+    from esrally import exceptions, metrics
+
+    c, node = _client(0)
+    c, node = _client(1)
+    ec = metrics.EsClient(c)
+    word = ("conn-aborted",) * (2 * k) + ((tail,) if tail else ())
+    node.script, node.log, node.overrun = list(word) + ["ok"] * 4, [], False
+    random.seed(k)
+    CLOCK.start()
+    try:
+        try:
+            final = ("ret", OPS[op][0](ec))
+        except exceptions.SystemSetupError as e:
+            final = ("setup-error", str(e.message))
+        except exceptions.RallyError as e:
+            final = ("rally-error", str(e.message))
+        except BaseException as e:  # noqa
+            final = ("other-exception", f"{type(e).__name__}: {e}")
+        sleeps = list(CLOCK.sleeps)
+    finally:
+        CLOCK.stop()
+    n = len(node.log)
+    problem = None
+    if k >= 11:
+        if final[0] != "rally-error" or "connect" not in final[1].lower():
+            problem = ("wrong-error-kind-exhausted", f"final={final}")
+        elif n != 22:
+            problem = ("attempts-exhausted", f"{n} requests, expected 22 (11 attempts of two requests)")
+    else:
+        want_final = {"success": "ret", "setup-error": "setup-error", "rally-error": "rally-error"}[classify(op, tail)]
+        if final[0] != want_final:
+            problem = ("gave-up-instead-of-retrying-after-retry" if want_final == "ret" else "wrong-error-kind-fatal", f"final={final}, expected {want_final}")
+        elif n != 2 * k + 1:
+            problem = ("request-count", f"{n} requests, expected {2 * k + 1}")
+    if problem is None:
+        want_sleeps = min(k, 10)
+        if len(sleeps) != want_sleeps:
+            problem = ("sleep-count", f"sleeps={sleeps} for {k} failed attempts")
+        else:
+            for j, s_ in enumerate(sleeps):
+                if not (2**j <= s_ < 2**j + 1):
+                    problem = ("backoff", f"pause {j} was {s_}")
+                    break
+    res.case(
+        case_repr={"op": op, "transport_retries": 1, "dropped_connections": 2 * k, "then": tail, "requests": n, "final": final[0], "pauses": [round(x, 3) for x in sleeps]} if res.sample_now(7) else None,
+        nontrivial_key=("transport", op, k, tail),
+        outcome_key=("transport", n, final[0], len(sleeps)),
+    )
+    if problem:
+        res.violation(f"guarded:transport-retries:{problem[0]}:conn-aborted", f"op={op}, client with one transport retry, {2 * k} dropped connections then {tail}: {problem[1]} (requests={n}, final={final}, pauses={[round(x, 3) for x in sleeps]})",
+                      {"transport": [op, k, tail]})
+
+
 def explore_words(op, maxlen, res, before=()):
     stack = [()]
     alpha = alphabet(op)
@@ -362,7 +440,12 @@ def _shard(arg):
     logging.disable(logging.CRITICAL)
     mode, op, p = arg
     res = Result()
-    if mode == "short":
+    if mode == "transport":
+        for k in (1, 2, 3, 10, 11):
+            for tail in ("ok", "400", "401"):
+                check_transport_retries(op, k, tail, res)
+                res.states += 1
+    elif mode == "short":
         explore_words(op, p, res)
     elif mode == "history":
         for fc in FIRST_CALLS:
@@ -383,6 +466,7 @@ def run(tier, seed):
     maxlen = 3 if tier == "quick" else 4
     jobs = [("short", op, maxlen) for op in OPS]
     jobs += [("history", op, 2) for op in OPS]
+    jobs += [("transport", op, None) for op in OPS]
     long_ops = ["bulk_index", "search", "exists"] if tier == "quick" else list(OPS)
     for op in long_ops:
         lw = list(long_words(op))
@@ -401,5 +485,8 @@ def replay(data):
 
     logging.disable(logging.CRITICAL)
     res = Result()
+    if "transport" in data:
+        check_transport_retries(*data["transport"], res)
+        return [v for lst in res.violations.values() for v in lst]
     check_one(data["op"], tuple(data["word"]), res, tuple((a, tuple(b)) for a, b in data.get("before", [])))
     return [v for lst in res.violations.values() for v in lst]
